@@ -4,6 +4,7 @@ C17 helper lemmas: `sortStable` (the insertion sort sort.SliceStable performs) i
 -/
 import Model.Legacy.Collection
 import Mathlib.Data.List.Sort
+import Proofs.Lemmas.C17F64
 
 namespace C17
 open Legacy
@@ -114,6 +115,89 @@ theorem byName_strict_weak :
     (∀ a b : Row, Order.byName.less a b = true → Order.byName.less b a = false) ∧
     (∀ a b c : Row, Order.byName.less a b = false → Order.byName.less b c = false → Order.byName.less a c = false) :=
   ⟨fun a b => bytesLt_asymm a.bench b.bench, fun a b c => bytesLt_negtrans a.bench b.bench c.bench⟩
+
+/-! ### congruence: only comparisons between elements of the input matter -/
+
+theorem mem_insRev {α : Type} (less : α → α → Bool) (x y : α) (l : List α) :
+    y ∈ insRev less x l ↔ y = x ∨ y ∈ l := by
+  rw [insRev_eq]; exact List.mem_orderedInsert _
+
+theorem insRev_congr {α : Type} (less less' : α → α → Bool) (x : α) (l : List α)
+    (h : ∀ y ∈ l, less x y = less' x y) : insRev less x l = insRev less' x l := by
+  induction l with
+  | nil => rfl
+  | cons y ys ih =>
+    simp only [insRev]
+    rw [h y (List.mem_cons_self ..), ih (fun z hz => h z (List.mem_cons_of_mem _ hz))]
+
+theorem foldl_insRev_congr {α : Type} (less less' : α → α → Bool) (xs racc : List α)
+    (h : ∀ a, (a ∈ racc ∨ a ∈ xs) → ∀ b, (b ∈ racc ∨ b ∈ xs) → less a b = less' a b) :
+    xs.foldl (fun racc x => insRev less x racc) racc = xs.foldl (fun racc x => insRev less' x racc) racc := by
+  induction xs generalizing racc with
+  | nil => rfl
+  | cons x xs ih =>
+    simp only [List.foldl_cons]
+    rw [insRev_congr less less' x racc (fun y hy => h x (Or.inr (List.mem_cons_self ..)) y (Or.inl hy))]
+    apply ih
+    intro a ha b hb
+    apply h
+    · rcases ha with ha | ha
+      · rcases (mem_insRev less' x a racc).mp ha with rfl | ha
+        · exact Or.inr (List.mem_cons_self ..)
+        · exact Or.inl ha
+      · exact Or.inr (List.mem_cons_of_mem _ ha)
+    · rcases hb with hb | hb
+      · rcases (mem_insRev less' x b racc).mp hb with rfl | hb
+        · exact Or.inr (List.mem_cons_self ..)
+        · exact Or.inl hb
+      · exact Or.inr (List.mem_cons_of_mem _ hb)
+
+theorem sortStable_congr {α : Type} (less less' : α → α → Bool) (xs : List α)
+    (h : ∀ a ∈ xs, ∀ b ∈ xs, less a b = less' a b) : sortStable less xs = sortStable less' xs := by
+  unfold sortStable
+  rw [foldl_insRev_congr less less' xs [] (fun a ha b hb => h a (by simpa using ha) b (by simpa using hb))]
+
+/-! ### ByDelta -/
+
+/-- the sort key of `ByDelta`: `math.Abs(PctDelta) * float64(Change)` -/
+def dkey (r : Row) : F64.Bits := F64.mul (F64.abs r.pctDelta) (F64.ofInt r.change)
+
+/-- NaN keys replaced by 0: a total extension used only inside proofs -/
+def san (k : F64.Bits) : F64.Bits := if F64.isNaN k then F64.posZero else k
+
+theorem san_not_nan (k : F64.Bits) : F64.isNaN (san k) = false := by
+  unfold san
+  by_cases h : F64.isNaN k = true
+  · rw [if_pos h]; decide
+  · rw [if_neg h]; simpa using h
+
+theorem san_of_not_nan (k : F64.Bits) (h : F64.isNaN k = false) : san k = k := by
+  unfold san; simp [h]
+
+/-- the order with NaN keys sanitised -/
+def sless : Order → Row → Row → Bool
+  | .byName, a, b => bytesLt a.bench b.bench
+  | .byDelta, a, b => F64.lt (san (dkey a)) (san (dkey b))
+  | .reverse o, a, b => sless o b a
+
+theorem sless_strict_weak (o : Order) :
+    (∀ a b : Row, sless o a b = true → sless o b a = false) ∧
+    (∀ a b c : Row, sless o a b = false → sless o b c = false → sless o a c = false) := by
+  induction o with
+  | byName => exact ⟨fun a b => bytesLt_asymm a.bench b.bench, fun a b c => bytesLt_negtrans a.bench b.bench c.bench⟩
+  | byDelta =>
+    exact ⟨fun a b => lt_asymm _ _ (san_not_nan _) (san_not_nan _),
+           fun a b c => lt_negtrans _ _ _ (san_not_nan _) (san_not_nan _) (san_not_nan _)⟩
+  | reverse o ih => exact ⟨fun a b hab => ih.1 b a hab, fun a b c h1 h2 => ih.2 c b a h2 h1⟩
+
+theorem sless_eq (o : Order) (a b : Row) (ha : F64.isNaN (dkey a) = false) (hb : F64.isNaN (dkey b) = false) :
+    o.less a b = sless o a b := by
+  induction o generalizing a b with
+  | byName => rfl
+  | byDelta =>
+    show F64.lt (dkey a) (dkey b) = F64.lt (san (dkey a)) (san (dkey b))
+    rw [san_of_not_nan _ ha, san_of_not_nan _ hb]
+  | reverse o ih => exact ih b a hb ha
 
 /-- reversing an order (`Reverse`) preserves being a strict weak order -/
 theorem reverse_strict_weak (o : Order)
